@@ -53,6 +53,7 @@ var transTargets = []transTarget{
 	{"TransBM", "", "blockManager", "findNextHeaderCheckpoint", "findNextHeaderCheckpoint"},
 	{"TransBM", "", "blockManager", "findPreviousHeaderCheckpoint", "findPreviousHeaderCheckpoint"},
 	{"TransBM", "", "blockManager", "BlockHeadersSynced", "BlockHeadersSynced"},
+	{"TransBM", "", "", "areHeadersConnected", "areHeadersConnected"},
 	{"TransBM", "headerlist", "", "invertLowestOne", "invertLowestOne"},
 	{"TransBM", "headerlist", "", "getAncestorHeight", "getAncestorHeight"},
 	{"TransImport", "chainimport", "", "targetHeightToImportSourceIndex", "targetHeightToImportSourceIndex"},
@@ -451,6 +452,7 @@ func extractTrans() {
 		all[m] = extractTransModule(m)
 	}
 	facts["trans"] = all
+	transTryAll()
 }
 
 func extractTransModule(mod string) []string {
